@@ -681,7 +681,16 @@ func vfQaSeededScript(rnd *rand.Rand, n int) []vfQaStep {
 	var out []vfQaStep
 	toks := []string{"none", "valid", "valid", "bad", "old", "foreign"}
 	gs := []string{"short", "shortcid", "longv1", "longvx", "vn0", "tiny"}
-	out = append(out, vfQaStep{K: "init", A: 1, Sz: rnd.Intn(len(vfQaSizes)), Tok: "none"})
+	// half of the first Initials are exactly 1200 bytes: the allowance then runs out on a
+	// datagram boundary and the run is judged to its end (known finding quicamp-F1 needs a
+	// remainder of 128..1199 bytes)
+	sz := func() int {
+		if rnd.Intn(2) == 0 {
+			return 0
+		}
+		return rnd.Intn(len(vfQaSizes))
+	}
+	out = append(out, vfQaStep{K: "init", A: 1, Sz: sz(), Tok: "none"})
 	silent := rnd.Intn(3) == 0 // the client goes silent after its Initial: only timers
 	for len(out) < n {
 		a := 1 + rnd.Intn(vfQaNAddr)
@@ -694,7 +703,7 @@ func vfQaSeededScript(rnd *rand.Rand, n int) []vfQaStep {
 		}
 		switch {
 		case k < 12:
-			out = append(out, vfQaStep{K: "init", A: a, Sz: rnd.Intn(len(vfQaSizes)), Tok: toks[rnd.Intn(len(toks))]})
+			out = append(out, vfQaStep{K: "init", A: a, Sz: sz(), Tok: toks[rnd.Intn(len(toks))]})
 		case k < 55:
 			out = append(out, vfQaStep{K: "pto"})
 		case k < 60:
